@@ -382,6 +382,8 @@ def ends_rule(repo, res, rule="ENDS"):
 
 
 def run(repo, res, tier):
+    from . import c06
+    c06.column_units(repo, res, rule="UNITS")
     from vlib import rules_pairing as RPAIR
     # the reference trace of `Adjacent literals` and the cycle path list exactly the references on the current path
     n_pair = RPAIR.pairing_rule(repo, res)
